@@ -5,7 +5,7 @@
 d=$(realpath "$1")
 base=/root/scratch/vs_base_$$; mut=/root/scratch/vs_mut_$$
 trap 'rm -rf $base $mut' EXIT
-rsync -a --exclude .git /repo/ $base/; rsync -a --exclude .git /repo/ $mut/
+rsync -a --exclude .git ${SEED_BASE:-/repo}/ $base/; rsync -a --exclude .git ${SEED_BASE:-/repo}/ $mut/
 (cd $mut && patch -p1 -s --no-backup-if-mismatch < "$d/patch.diff") || { echo "$d: patch does not apply"; exit 2; }
 (cd /root/scratch && PYTHONPATH=$base OMP_NUM_THREADS=1 timeout 600 /venv/bin/python "$d/demo.py" > /dev/null 2>&1); e0=$?
 (cd /root/scratch && PYTHONPATH=$mut OMP_NUM_THREADS=1 timeout 600 /venv/bin/python "$d/demo.py" > /dev/null 2>&1); e1=$?
